@@ -17,7 +17,7 @@ from harness.common import COQ, PY, VERIF, CoqFailure, coq_list, coqc_many, impl
 
 PROP = 'theories/Props/C08.v'
 HEADER = ('From Coq Require Import List Arith.\nFrom BT Require Import C08.AGen C08.Corr.\nImport ListNotations.\n')
-THROWN = [0, 3, 4]          # GeneratorExit, ValueError, KeyError have table entries; others propagate
+THROWN = [0, 3, 4, 6, 7]    # GeneratorExit, ValueError, KeyError, KeyboardInterrupt, a BaseException subclass have table entries
 
 
 def regenerate(ctx):
@@ -33,7 +33,7 @@ def gen_action(rng, nstates, allow_yield=True):
         return ['yield', rng.randint(1, 9), rng.randrange(nstates)]
     if r < 0.8:
         return ['return']
-    return ['raise', rng.choice([3, 4, 5, 0])]
+    return ['raise', rng.choice([3, 4, 5, 0, 7])]
 
 
 def gen_table(rng):
@@ -59,7 +59,7 @@ def gen_ops(rng, manual_exit):
         elif r < 0.6:
             ops.append(['send', rng.choice([None, 5, 6])])
         elif r < 0.85:
-            ops.append(['throw', rng.choice([3, 4, 5, 1] + ([0] if manual_exit else []))])
+            ops.append(['throw', rng.choice([3, 4, 5, 1, 6, 7] + ([0] if manual_exit else []))])
         else:
             ops.append(['close'])
     return ops
@@ -110,9 +110,14 @@ def run(ctx):
     ctx.assumptions += ['CPython\'s own `yield from` and `await` delegation (sync generators, coroutines) is compared, not modelled',
                         'yielded and sent values are small integers; the checks of yielded / returned values against the annotation are '
                         'C03/C04 matters']
-    regenerate(ctx)
     proof_err = None
     try:
+        regenerate(ctx)
+    except CoqFailure as e:
+        proof_err = e          # the template no longer has the modelled shape: keep the last model and search
+    try:
+        if proof_err is not None:
+            raise proof_err
         ctx.prove(PROP, extra_targets=['theories/C08/Corr.vo'])
     except CoqFailure as e:
         proof_err = e
